@@ -725,7 +725,7 @@ pub fn run_c19(tier: Tier) -> i32 {
     let texts = [
         "name", "Name", "0", "1", "3", "007", "+1", "-1", "-0", "1.5", "1e3", "18446744073709551616", "true", "false", "null", "", " ",
         "a b", "_", "__proto__", "tags[]", "[]", "[0]", "a[0]", ".", "..", "a.b", "/", "~0", "#", "$", "*", "é", "e\u{301}", "日本", "😀",
-        "\u{0}", "\t", "\n", "\"", "'", "\\", "%41",
+        "\u{0}", "\t", "\n", "\"", "'", "\\", "%41", "r#type", "r#", "r#1x", "#type",
     ];
     let mut odd3: Vec<Step> = texts.iter().map(|t| Step::Key(t.to_string())).collect();
     odd3.push(Step::Index(0));
@@ -769,7 +769,7 @@ pub fn run_c19(tier: Tier) -> i32 {
     rec.sample(json!({"path": ".a[0].b", "to_owned": format!("{:?}", deserr::ValuePointerRef::Origin.push_key("a").push_index(0).push_key("b").to_owned().path)}));
     rec.finish(
         "model_checking",
-        "complete enumeration of every path of ≤ 6 (quick) / ≤ 11 (thorough) steps over {key a, key b, index 0, index 1}, built as real ValuePointerRef chains by recursion, every path of ≤ 4 steps over {empty key, key `a.b[0]`, key `é`, index usize::MAX} and over {key `tags[]`, key `[]`, key `.`, index 1}, every path of ≤ 3 steps over 43 key texts (number-, boolean- and null-like, path syntax, blanks, case variants, non-ASCII, control characters) and one index, plus the first 2000 paths of each of the next six lengths over a second alphabet and four paths of each length 100, 127–130, 255–257, 1000, 5000. Oracle: to_owned().path lists exactly the pushed steps in order; is_origin ⇔ no step; first_field / last_field = first / last key step or None.",
+        "complete enumeration of every path of ≤ 6 (quick) / ≤ 11 (thorough) steps over {key a, key b, index 0, index 1}, built as real ValuePointerRef chains by recursion, every path of ≤ 4 steps over {empty key, key `a.b[0]`, key `é`, index usize::MAX} and over {key `tags[]`, key `[]`, key `.`, index 1}, every path of ≤ 3 steps over 47 key texts (number-, boolean- and null-like, path syntax, blanks, case variants, non-ASCII, control characters) and one index, plus the first 2000 paths of each of the next six lengths over a second alphabet and four paths of each length 100, 127–130, 255–257, 1000, 5000. Oracle: to_owned().path lists exactly the pushed steps in order; is_origin ⇔ no step; first_field / last_field = first / last key step or None.",
         &["ValuePointerComponent is not exported by deserr, so the owned path is compared through its Debug rendering"],
     )
 }
@@ -1306,6 +1306,10 @@ pub fn run_c05(tier: Tier) -> i32 {
     for s in crate::pure::words(&['a', 'é', '😀'], 3) {
         values.push(Doc::Str(s));
     }
+    // strings that *spell* a value of another kind (a string is a string whatever it spells)
+    for t in ["true", "false", "null", "0", "1", "-1", "255", "1.5", "1e3", "NaN", "inf", "Infinity", "[]", "{}", "\"a\"", " 1", "1 ", "TRUE", "True", "yes", "on", "()"] {
+        values.push(Doc::s(t));
+    }
     // one- and two-character strings over characters that escape syntaxes treat specially
     for s in crate::pure::words(&['\\', 't', 'n', '0', 'r', '"', ' ', '\t'], 2) {
         values.push(Doc::Str(s));
@@ -1434,7 +1438,7 @@ pub fn run_c05(tier: Tier) -> i32 {
     rec.sample(json!({"target": "f32", "payload": "16777217", "expected": format!("{:?}", scalar_expect(Scalar::F32, &Doc::Int(16777217)))}));
     rec.finish(
         "model_checking",
-        "complete enumeration: 30 scalar targets × 2 value sources × every payload of the stated set (all integers of the range, all ±2^k and ±2^k±1, every target's MIN/MAX ±1, every integer next to an f32 / f64 rounding midpoint 2^k + 2^(k-24)·{1,3} ± 1 (double-rounding detectors), zero and small non-negative numbers classified as negative and NaN / ±inf from a non-canonical source, all strings of ≤ 2 characters over {backslash, t, n, 0, r, double quote, space, tab}, 26 floats incl. ±0, subnormals, f32::MAX neighbours, 2^24±1, 2^53±1, huge; all strings of 0..3 scalar values over {a, é, 😀}; 126 long strings of 15..257+ bytes whose multi-byte characters straddle every byte offset; every non-scalar kind). Each executed on the real deserialize with a recording error type. Oracle: independent i128/decimal-string specification — success ⇔ kind admissible ∧ value in domain; result equals the input (floats: the correctly rounded conversion computed from the exact decimal expansion); wrong kind ⇒ exactly one IncorrectValueKind whose accepted set is the admissible set and whose actual is the payload; domain violation ⇒ exactly one Unexpected whose numeric tokens contain the received number and the violated bound (or mention a zero / the string and its length / empty).",
+        "complete enumeration: 30 scalar targets × 2 value sources × every payload of the stated set (all integers of the range, all ±2^k and ±2^k±1, every target's MIN/MAX ±1, every integer next to an f32 / f64 rounding midpoint 2^k + 2^(k-24)·{1,3} ± 1 (double-rounding detectors), zero and small non-negative numbers classified as negative and NaN / ±inf from a non-canonical source, all strings of ≤ 2 characters over {backslash, t, n, 0, r, double quote, space, tab}, 26 floats incl. ±0, subnormals, f32::MAX neighbours, 2^24±1, 2^53±1, huge; all strings of 0..3 scalar values over {a, é, 😀}; 22 strings that spell a value of another kind (`true`, `null`, `1`, `1.5`, `[]`, …); 126 long strings of 15..257+ bytes whose multi-byte characters straddle every byte offset; every non-scalar kind). Each executed on the real deserialize with a recording error type. Oracle: independent i128/decimal-string specification — success ⇔ kind admissible ∧ value in domain; result equals the input (floats: the correctly rounded conversion computed from the exact decimal expansion); wrong kind ⇒ exactly one IncorrectValueKind whose accepted set is the admissible set and whose actual is the payload; domain violation ⇒ exactly one Unexpected whose numeric tokens contain the received number and the violated bound (or mention a zero / the string and its length / empty).",
         &["float reference = Rust's correctly rounded decimal parser applied to the exact decimal expansion of the input"],
     )
 }
